@@ -132,45 +132,41 @@ def run(ctx: Ctx) -> None:
 
 
 def done_rule(ctx: Ctx, rid: str) -> None:
+    """The definitions of "done" as truth functions (sa.flowspec.same_truth_function): early returns,
+    nested ifs or one boolean expression are the same thing."""
+    from ..flowspec import same_truth_function
+    from ..parsershape import normal_flow
     m = ctx.model
-    r = ctx.rule(rid, "definition of done")
-    f = m.method("Pipeline", "is_done", own=True)
-    rets = [n for n in walk_no_nested(f.node) if isinstance(n, ast.Return)]
-    ok = False
-    if len(rets) == 1 and isinstance(rets[0].value, ast.BoolOp) and isinstance(rets[0].value.op, ast.Or):
-        vals = rets[0].value.values
-        a = {x for v in vals[:1] for x in facts_of(v, True)}
-        rest = ast.BoolOp(op=ast.Or(), values=vals[1:]) if len(vals) > 2 else vals[1]
-        b = facts_of(rest, True)
-        ok = any(t.startswith("None is ") and t.endswith(".exit_code") and v is False for t, v in a) \
-            and any(t.endswith(".is_empty()") and v for t, v in b) \
-            and any(t.endswith(".instruction_at_pc()") and v is False for t, v in b) and len(b) == 2
+    r = ctx.rule(rid, "definition of done (truth-function comparison)")
+    f = m.method("Pipeline", "is_done")
+    ok, shown = same_truth_function(m, f, "self.state.exit_code is not None or (self.is_empty() and not self.state.instruction_at_pc())")
     r.check(ok, "Pipeline.is_done", f.loc(),
-            "Pipeline.is_done is not `exit_code is not None or (is_empty() and not instruction_at_pc())`",
-            seg(f, rets[0]) if rets else None)
-    f = m.method("Pipeline", "is_empty", own=True)
-    txt = " ".join(ast.unparse(f.node).split())
-    ok = "EmptyInstruction" in txt and "pipeline_registers" in txt
-    # the last latch feeds no stage and must not keep the pipeline "busy": recognisable bad shapes only
-    for n in walk_no_nested(f.node):
-        if isinstance(n, ast.comprehension) or isinstance(n, ast.For):
-            it = n.iter
-            if isinstance(it, ast.Attribute) and it.attr == "pipeline_registers":
-                ok = False  # iterates every latch including the last
-            if isinstance(it, ast.Subscript) and isinstance(it.slice, ast.Slice) and it.slice.upper is None:
-                ok = False
-    r.check(ok, "Pipeline.is_empty", f.loc(), "Pipeline.is_empty no longer tests all latches but the last for EmptyInstruction")
-    f = m.method("ToySimulation", "is_done", own=True)
-    rets = [n for n in walk_no_nested(f.node) if isinstance(n, ast.Return)]
-    ok = len(rets) == 1 and rets[0].value is not None and \
-        facts_of(rets[0].value, True) == {("self.state.instruction_loaded()", False)}
-    r.check(ok, "ToySimulation.is_done", f.loc(), "TOY is_done is not `not self.state.instruction_loaded()`")
-    f = m.method("ToyArchitecturalState", "instruction_loaded", own=True)
-    rets = [n for n in walk_no_nested(f.node) if isinstance(n, ast.Return)]
-    ok = len(rets) == 1 and rets[0].value is not None and \
-        facts_of(rets[0].value, True) == {("None is self.loaded_instruction", False)}
+            f"Pipeline.is_done is `{shown}`, not `exit_code is not None or (is_empty() and not instruction_at_pc())`")
+    # is_empty: every latch but the last holds an EmptyInstruction
+    f = m.method("Pipeline", "is_empty")
+    fl = normal_flow(m, f)
+    ok = False
+    if len(fl.returns) == 1 and fl.canon_cond(fl.returns[0].cond) == "TRUE":
+        v = fl.returns[0].value
+        if isinstance(v, ast.Call) and isinstance(v.func, ast.Name) and v.func.id == "all" and len(v.args) == 1 \
+                and isinstance(v.args[0], (ast.GeneratorExp, ast.ListComp)) and len(v.args[0].generators) == 1 and not v.args[0].generators[0].ifs:
+            g = v.args[0].generators[0]
+            body = fl.canon(v.args[0])
+            elt_ok = any(body.startswith(f"{k}({e} for _c0 in ") for k in ("GeneratorExp", "ListComp")
+                         for e in ("Eq(EmptyInstruction, type(_c0.instruction))", "isinstance(_c0.instruction, EmptyInstruction)"))
+            # all latches but the last one (which feeds no stage)
+            it_ok = fl.canon(g.iter) in ("P0.pipeline_registers[:USub(1)]", "P0.pipeline_registers[:Sub(P0.num_stages, 1)]",
+                                         "P0.pipeline_registers[:Sub(len(P0.pipeline_registers), 1)]")
+            ok = elt_ok and it_ok
+    r.check(ok, "Pipeline.is_empty", f.loc(), "Pipeline.is_empty no longer tests all latches but the last for EmptyInstruction "
+            f"(recovered: {[fl.show(x.value) for x in fl.returns]})")
+    f = m.method("ToySimulation", "is_done")
+    ok, shown = same_truth_function(m, f, "not self.state.instruction_loaded()")
+    r.check(ok, "ToySimulation.is_done", f.loc(), f"TOY is_done is `{shown}`, not `not self.state.instruction_loaded()`")
+    f = m.method("ToyArchitecturalState", "instruction_loaded")
+    ok, shown = same_truth_function(m, f, "self.loaded_instruction is not None")
     r.check(ok, "ToyArchitecturalState.instruction_loaded", f.loc(),
-            "instruction_loaded is not `self.loaded_instruction is not None`")
+            f"instruction_loaded is `{shown}`, not `self.loaded_instruction is not None`")
 
 
 def load_rules(ctx: Ctx, rid: str = "R13.load", icache_only: bool = False) -> None:
